@@ -4,7 +4,9 @@ C19 — property theorems for the line readers (statements, short derivations fr
 `Proofs.lean`, non-vacuity examples).
 
 Texts / contents are `List Nat` (code points / bytes; 10 = LF, 13 = CR).  Everything is
-for ALL texts, contents and block sizes ≥ 1.  `json.loads` is a parameter `parse`.
+for ALL texts, contents and block sizes ≥ 1.  `json.loads` is an ARBITRARY function `parse`
+(no assumption on it: since the `fix:` that strips the line break before decoding, both directions
+hand it the same bytes).
 -/
 namespace C19
 
@@ -19,6 +21,13 @@ theorem lineEndings_denote :
     Generated.lineEndings.idxOf [13, 10] < Generated.lineEndings.idxOf [13] := by decide
 
 theorem lineEndings_eq_E : Generated.lineEndings = E := rfl
+
+/-- the two byte sets `JSONLIterator.next` strips from a line (regenerated on every run by running
+    the current code with `json.loads` replaced by a recorder): the end set contains LF and CR — all
+    the JSONL theorems need — and the front set contains space and tab (blank lines) -/
+theorem stripSets_denote :
+    10 ∈ Generated.rstripSet ∧ 13 ∈ Generated.rstripSet ∧
+    32 ∈ Generated.lstripSet ∧ 9 ∈ Generated.lstripSet := by decide
 
 /-! ## iter_splitlines -/
 
@@ -80,7 +89,7 @@ theorem reverse_lines_separated (c : List Nat) (bs : Nat) (hbs : 1 ≤ bs)
 
 /-- an empty file has no lines -/
 theorem reverse_lines_empty (bs : Nat) : reverseIterLines [] bs = [] := by
-  simp [reverseIterLines, revLoop, flush]
+  simp [reverseIterLines, revLoop, revLoopS, flush]
 
 /-- identical result for every block size (from 1 byte to larger than the file) -/
 theorem blocksize_independent (c : List Nat) (bs₁ bs₂ : Nat) (h₁ : 1 ≤ bs₁) (h₂ : 1 ≤ bs₂) :
@@ -100,24 +109,56 @@ theorem reverse_lines_unbroken (c : List Nat) (bs : Nat) (hbs : 1 ≤ bs) :
     · simp at hl; subst hl; intro x hx; cases hx
     · cases hl
 
+/-- INDEPENDENCE FROM THE READ PARTITION, not only from the block size: whatever number of bytes
+    (at least one) each round of the loop reads — a constant block size, block-aligned reads, a
+    different size in every round — the loop yields the same lines -/
+theorem reverse_lines_any_schedule (c : List Nat) (rs : Nat → Nat) (hrs : ∀ p, 1 ≤ rs p) :
+    revLoopS c rs c.length c.length [] = (linesOf c).reverse := by
+  rw [revLoopS_spec c rs hrs c.length c.length [] (Nat.le_refl _)]
+  simp
+
+theorem schedule_independent (c : List Nat) (rs₁ rs₂ : Nat → Nat)
+    (h₁ : ∀ p, 1 ≤ rs₁ p) (h₂ : ∀ p, 1 ≤ rs₂ p) :
+    revLoopS c rs₁ c.length c.length [] = revLoopS c rs₂ c.length c.length [] := by
+  rw [reverse_lines_any_schedule c rs₁ h₁, reverse_lines_any_schedule c rs₂ h₂]
+
+/-- e.g. reading on block boundaries (first read `len % bs` bytes, then whole aligned blocks)
+    gives what the code's "blocks counted from the end of the file" gives -/
+theorem aligned_reads_same (c : List Nat) (bs : Nat) (hbs : 1 ≤ bs) :
+    revLoopS c (alignedRead bs) c.length c.length [] = reverseIterLines c bs := by
+  rw [reverse_lines_any_schedule c _ (alignedRead_pos bs hbs), reverse_lines c bs hbs]
+
+/-- `preseek=False` with the file position at `p`: the lines of the first `p` bytes, last to first
+    (relative reverse line generation), for every block size -/
+theorem reverse_lines_from_position (c : List Nat) (p bs : Nat) (hbs : 1 ≤ bs) :
+    reverseIterLinesFrom c p bs = (linesOf (c.take p)).reverse := by
+  unfold reverseIterLinesFrom
+  rw [revLoop_spec c bs hbs _ _ [] (Nat.le_refl _)]
+  simp [List.take_eq_take_min]
+
+/-- … which is `reverse_iter_lines` of the truncated file -/
+theorem reverse_from_position_eq_prefix (c : List Nat) (p bs : Nat) (hbs : 1 ≤ bs) :
+    reverseIterLinesFrom c p bs = reverseIterLines (c.take p) bs := by
+  rw [reverse_lines_from_position c p bs hbs, reverse_lines _ bs hbs]
+
 /-! ## JSONLIterator -/
 
 variable {α ε : Type}
 
 /-- forward mode over a binary file, `ignore_errors=True`: exactly the objects of the non-blank,
     decodable LF/CRLF-separated lines, in order, and no error -/
-theorem jsonl_forward_binary (parse : List Nat → Except ε α) (hp : IgnoresBreak parse)
+theorem jsonl_forward_binary (parse : List Nat → Except ε α)
     (c : List Nat) (hcr : noLoneCR c = true) :
     jsonlForwardB parse true c = ((sepLines c).filterMap (objOf parse), none) := by
   unfold jsonlForwardB
   rw [consume_ignore, ← filterMap_fileLinesB',
-    filterMap_rel parse hp _ _ (fileLinesB'_rel c hcr)]
+    filterMap_rel parse _ _ (fileLinesB'_rel c hcr)]
 
 /-- forward mode over a text-mode file (universal newlines), `ignore_errors=True` -/
-theorem jsonl_forward_text (parse : List Nat → Except ε α) (hp : IgnoresBreak parse) (c : List Nat) :
+theorem jsonl_forward_text (parse : List Nat → Except ε α) (c : List Nat) :
     jsonlForwardT parse true c = ((bytesSplitlines c).filterMap (objOf parse), none) := by
   unfold jsonlForwardT bytesSplitlines
-  rw [consume_ignore, filterMap_rel parse hp _ _ (fileLinesT_rel false c)]
+  rw [consume_ignore, filterMap_rel parse _ _ (fileLinesT_rel false c)]
 
 /-- reverse mode, any block size ≥ 1, `ignore_errors=True` -/
 theorem jsonl_reverse (parse : List Nat → Except ε α) (c : List Nat) (bs : Nat) (hbs : 1 ≤ bs) :
@@ -127,16 +168,16 @@ theorem jsonl_reverse (parse : List Nat → Except ε α) (c : List Nat) (bs : N
 
 /-- reverse mode yields the objects of forward mode, reversed — text-mode files, every content,
     whatever the file size relative to the block size -/
-theorem jsonl_forward_reverse_text (parse : List Nat → Except ε α) (hp : IgnoresBreak parse)
+theorem jsonl_forward_reverse_text (parse : List Nat → Except ε α)
     (c : List Nat) (bs : Nat) (hbs : 1 ≤ bs) :
     jsonlReverse parse true bs c = ((jsonlForwardT parse true c).1.reverse, none) := by
-  rw [jsonl_reverse parse c bs hbs, jsonl_forward_text parse hp c]
+  rw [jsonl_reverse parse c bs hbs, jsonl_forward_text parse c]
 
 /-- … and binary files whose lines are LF- or CRLF-separated -/
-theorem jsonl_forward_reverse_binary (parse : List Nat → Except ε α) (hp : IgnoresBreak parse)
+theorem jsonl_forward_reverse_binary (parse : List Nat → Except ε α)
     (c : List Nat) (hcr : noLoneCR c = true) (bs : Nat) (hbs : 1 ≤ bs) :
     jsonlReverse parse true bs c = ((jsonlForwardB parse true c).1.reverse, none) := by
-  rw [jsonl_reverse parse c bs hbs, jsonl_forward_binary parse hp c hcr, ← filterMap_linesOf]
+  rw [jsonl_reverse parse c bs hbs, jsonl_forward_binary parse c hcr, ← filterMap_linesOf]
   by_cases hne : c = []
   · subst hne; simp [linesOf_nil, sepLines, objOf_nil]
   · rw [linesOf_eq_sepLines c hcr hne]
@@ -150,7 +191,7 @@ theorem jsonl_blocksize_independent (parse : List Nat → Except ε α) (ig : Bo
 
 /-- without `ignore_errors`: if forward mode gets through the file without an error, so does
     reverse mode, with the same objects reversed (binary, LF/CRLF-separated) -/
-theorem jsonl_strict_forward_reverse_binary (parse : List Nat → Except ε α) (hp : IgnoresBreak parse)
+theorem jsonl_strict_forward_reverse_binary (parse : List Nat → Except ε α)
     (c : List Nat) (hcr : noLoneCR c = true) (bs : Nat) (hbs : 1 ≤ bs)
     (hok : (jsonlForwardB parse false c).2 = none) :
     jsonlReverse parse false bs c = ((jsonlForwardB parse false c).1.reverse, none) := by
@@ -163,21 +204,21 @@ theorem jsonl_strict_forward_reverse_binary (parse : List Nat → Except ε α) 
     · split at hl
       · simp at hl; subst hl; exact okLine_nil parse
       · cases hl
-  have h3 : AllOk parse (sepLines c) := (allOk_rel parse hp _ _ (fileLinesB'_rel c hcr)).mp h2
+  have h3 : AllOk parse (sepLines c) := (allOk_rel parse _ _ (fileLinesB'_rel c hcr)).mp h2
   have h4 : AllOk parse (reverseIterLines c bs) := by
     by_cases hne : c = []
     · subst hne; rw [reverse_lines_empty]; intro l hl; cases hl
     · rw [reverse_lines_separated c bs hbs hne hcr]; exact (allOk_reverse parse _).mpr h3
   unfold jsonlReverse jsonlForwardB
   rw [consume_strict_of_allOk parse _ h4, consume_strict_of_allOk parse _ h1]
-  exact jsonl_forward_reverse_binary parse hp c hcr bs hbs
+  exact jsonl_forward_reverse_binary parse c hcr bs hbs
 
 /-- … and forward mode raises exactly when reverse mode does -/
-theorem jsonl_strict_error_iff_binary (parse : List Nat → Except ε α) (hp : IgnoresBreak parse)
+theorem jsonl_strict_error_iff_binary (parse : List Nat → Except ε α)
     (c : List Nat) (hcr : noLoneCR c = true) (bs : Nat) (hbs : 1 ≤ bs) :
     (jsonlForwardB parse false c).2 = none ↔ (jsonlReverse parse false bs c).2 = none := by
   constructor
-  · intro h; rw [jsonl_strict_forward_reverse_binary parse hp c hcr bs hbs h]
+  · intro h; rw [jsonl_strict_forward_reverse_binary parse c hcr bs hbs h]
   · intro h
     have h4 : AllOk parse (reverseIterLines c bs) := allOk_of_consume_strict parse _ h
     have h1 : AllOk parse (fileLinesB c) := by
@@ -185,19 +226,19 @@ theorem jsonl_strict_error_iff_binary (parse : List Nat → Except ε α) (hp : 
       · subst hne; intro l hl; simp [fileLinesB] at hl
       · rw [reverse_lines_separated c bs hbs hne hcr] at h4
         have h3 : AllOk parse (sepLines c) := (allOk_reverse parse _).mp h4
-        have h2 := (allOk_rel parse hp _ _ (fileLinesB'_rel c hcr)).mpr h3
+        have h2 := (allOk_rel parse _ _ (fileLinesB'_rel c hcr)).mpr h3
         intro l hl
         exact h2 l (by unfold fileLinesB'; exact List.mem_append.mpr (Or.inl hl))
     unfold jsonlForwardB
     rw [consume_strict_of_allOk parse _ h1, consume_ignore]
 
 /-- the same for text-mode files, every content -/
-theorem jsonl_strict_forward_reverse_text (parse : List Nat → Except ε α) (hp : IgnoresBreak parse)
+theorem jsonl_strict_forward_reverse_text (parse : List Nat → Except ε α)
     (c : List Nat) (bs : Nat) (hbs : 1 ≤ bs)
     (hok : (jsonlForwardT parse false c).2 = none) :
     jsonlReverse parse false bs c = ((jsonlForwardT parse false c).1.reverse, none) := by
   have h1 : AllOk parse (fileLinesT false c) := allOk_of_consume_strict parse _ hok
-  have h3 : AllOk parse (bytesSplitlines c) := (allOk_rel parse hp _ _ (fileLinesT_rel false c)).mp h1
+  have h3 : AllOk parse (bytesSplitlines c) := (allOk_rel parse _ _ (fileLinesT_rel false c)).mp h1
   have h4 : AllOk parse (reverseIterLines c bs) := by
     rw [reverse_lines c bs hbs]
     apply (allOk_reverse parse _).mpr
@@ -210,7 +251,25 @@ theorem jsonl_strict_forward_reverse_text (parse : List Nat → Except ε α) (h
       · cases hl
   unfold jsonlReverse jsonlForwardT
   rw [consume_strict_of_allOk parse _ h4, consume_strict_of_allOk parse _ h1]
-  exact jsonl_forward_reverse_text parse hp c bs hbs
+  exact jsonl_forward_reverse_text parse c bs hbs
+
+/-- blank lines are skipped: a line made only of characters `.lstrip()` strips (space, tab, …),
+    with or without its line break, contributes no object and no error -/
+theorem jsonl_blank_skipped (parse : List Nat → Except ε α) (ig : Bool) (l : List Nat)
+    (hl : ∀ c ∈ l, pyWs c = true) (ls : List (List Nat)) :
+    consume parse ig (l :: ls) = consume parse ig ls ∧
+    consume parse ig ((l ++ [10]) :: ls) = consume parse ig ls ∧
+    consume parse ig ((l ++ [13, 10]) :: ls) = consume parse ig ls := by
+  have h0 : lineNorm l = [] := lineNorm_blank l hl
+  have h1 : lineNorm (l ++ [10]) = [] := by rw [lineNorm_rel _ l (Or.inr (Or.inl rfl)), h0]
+  have h2 : lineNorm (l ++ [13, 10]) = [] := by rw [lineNorm_rel _ l (Or.inr (Or.inr rfl)), h0]
+  refine ⟨?_, ?_, ?_⟩ <;> rw [consume] <;> simp [h0, h1, h2]
+
+/-- both directions hand `json.loads` the same bytes for a line, whether the line iterator
+    delivered it with its line break (forward) or without (reverse) -/
+theorem jsonl_same_bytes_decoded (l : List Nat) :
+    lineNorm (l ++ [10]) = lineNorm l ∧ lineNorm (l ++ [13, 10]) = lineNorm l :=
+  ⟨lineNorm_rel _ l (Or.inr (Or.inl rfl)), lineNorm_rel _ l (Or.inr (Or.inr rfl))⟩
 
 /-! ## non-vacuity -/
 
@@ -231,18 +290,27 @@ example : reverseIterLines [10, 98] 1 = [[98], []] := by decide
 -- a lone CR is a break for the code (bytes.splitlines) but not for `sepLines`: hypothesis needed
 example : reverseIterLines [97, 13, 98] 1 ≠ (sepLines [97, 13, 98]).reverse := by decide
 
-/-- a toy `json.loads` for the examples: strips trailing CR/LF, then accepts exactly the line "3" -/
+/-- a toy `json.loads` for the examples: accepts exactly the text "3" — it does NOT tolerate a
+    trailing line break, and need not: `next` strips it in both directions -/
 def toyParse (l : List Nat) : Except Unit Nat :=
-  if (l.reverse.dropWhile (fun c => c == 10 || c == 13)).reverse = [51] then .ok 3 else .error ()
-
-example : IgnoresBreak toyParse := by
-  intro x
-  simp [toyParse, List.reverse_append, List.dropWhile_cons]
+  if l = [51] then .ok 3 else .error ()
 
 -- "\n3\n \nx\r\n3\n": blank lines, a corrupt line, CRLF; block size 5 (the former failure)
 example : jsonlForwardB toyParse true [10, 51, 10, 32, 10, 120, 13, 10, 51, 10] = ([3, 3], none) := by decide
 example : jsonlReverse toyParse true 5 [10, 51, 10, 32, 10, 120, 13, 10, 51, 10] = ([3, 3], none) := by decide
 example : (jsonlForwardB toyParse false [10, 51, 10, 32, 10, 51, 10]).2 = none := by decide
 example : (jsonlForwardB toyParse false [10, 51, 10, 120, 10, 51, 10]) = ([3], some ()) := by decide
+
+-- the former defect C19-jsonl-break-dependent-decoding: a line with a NUL byte, b"\x001\n"
+example : lineNorm [0, 49, 10] = [0, 49] ∧ lineNorm [0, 49] = [0, 49] := by decide
+example : lineNorm [32, 9, 51, 13, 13, 10] = [51] := by decide
+example : ∀ c ∈ [32, 9, 32], pyWs c = true := by decide
+-- read schedules: block size 3 from the end reads 1+3+3 bytes last, aligned reads 3+3+1
+example : revLoopS [10, 195, 169, 13, 10, 98, 10] (alignedRead 3) 7 7 [] = [[], [98], [195, 169], []] := by decide
+example : reverseIterLines [10, 195, 169, 13, 10, 98, 10] 3 = [[], [98], [195, 169], []] := by decide
+example : ∀ p, 1 ≤ alignedRead 3 p := alignedRead_pos 3 (by decide)
+-- preseek=False from the middle of "a\nb\nc": position 3 (just after the 'b')
+example : reverseIterLinesFrom [97, 10, 98, 10, 99] 3 2 = [[98], [97]] := by decide
+example : reverseIterLinesFrom [97, 10, 98, 10, 99] 4 2 = [[], [98], [97]] := by decide
 
 end C19
